@@ -14,8 +14,9 @@ CONFIG = {
 }
 from c01 import nontrivial as _nt
 def nontrivial(cid, lines, r):
-    if lines[0].startswith('fullpath'):
+    if lines[0].startswith('fullpath') or lines[0].startswith('realpath'):
         return True
     return _nt(cid, lines, r)
 COQ_HEADER = FS_COQ_HEADER
-coq_case = fs_coq_case
+def coq_case(cid, lines, r):
+    return fs_coq_case(cid, lines, r) if lines[0].startswith('case') else None
